@@ -744,6 +744,57 @@ fn judge_c07(src: &str, kind: &str, max_steps: u64, acc: &mut Acc) {
 
 /// inputs that are always part of the corpus: witnesses of past and known findings, seeds of
 /// interesting regions
+/// Keyed records looked up along symbol paths, some of whose parts are missing or lead into
+/// values that cannot be looked into: every lookup form of the language over one record.
+fn lookup_program(r: &mut Rng) -> String {
+    fn record(r: &mut Rng, depth: u32) -> String {
+        let keys = ["a", "b", "c", "d"];
+        let n = 1 + r.below(4) as usize;
+        let mut items = vec![];
+        for k in 0..n {
+            let v = match r.below(if depth == 0 { 4 } else { 6 }) {
+                0 => "5".to_string(),
+                1 => "\"ab\"".to_string(),
+                2 => "()".to_string(),
+                3 => "1..4".to_string(),
+                _ => record(r, depth - 1),
+            };
+            if r.chance(1, 6) {
+                items.push(v);
+            } else {
+                items.push(format!(":{} = {}", keys[(k + r.below(2) as usize) % 4], v));
+            }
+        }
+        if items.len() == 1 {
+            format!("({},)", items[0])
+        } else {
+            format!("({})", items.join(", "))
+        }
+    }
+    let rec = record(r, 2);
+    let names = ["a", "b", "c", "d", "zz", "0", "1"];
+    let len = 1 + r.below(3);
+    let mut path = String::new();
+    for k in 0..len {
+        let n = *r.pick::<&str>(&names);
+        if k == 0 {
+            path = if n.chars().all(|c| c.is_ascii_digit()) { format!("({})", n) } else { format!(":{}", n) };
+        } else if n.chars().all(|c| c.is_ascii_digit()) {
+            path.push_str(&format!(".({})", n));
+        } else {
+            path.push_str(&format!(".{}", n));
+        }
+    }
+    match r.below(6) {
+        0 => format!("{} <~ {}", rec, path),
+        1 => format!("{} ~> {}", path, rec),
+        2 => format!("{} ~ {}", rec, path),
+        3 => format!("{}{}", rec, path.replacen(':', ".", 1).replacen('(', ".(", 1)),
+        4 => format!("{} <~ ({} {})", rec, path, path),
+        _ => format!("x = {}\n\nx <~ {}, x ~ {}", rec, path, path),
+    }
+}
+
 pub const FIXED: [&str; 27] = [
     "1 ;; 2",
     "1 ;;",
@@ -850,7 +901,21 @@ pub fn run(ctx: &Ctx, which: Which) -> (Acc, String, bool) {
     let seed = ctx.seed;
     let steps = ctx.pick(2_000u64, 10_000u64);
     let fixed_total = FIXED.len() as u64;
-    let total = ex_total + boundary_total + soup_total + fam_total + fixed_total;
+    // well-formed programs from the C01 generators: every AST of <= 3 nodes and random larger ones
+    let small_asts: Vec<crate::ast::E> = if matches!(which, Which::C03) {
+        vec![]
+    } else {
+        let mut cache: Vec<Vec<crate::ast::E>> = vec![vec![]];
+        let mut v = vec![];
+        for n in 1..=3 {
+            v.extend(crate::ast::all_of_size(n, &mut cache));
+        }
+        v
+    };
+    let wf_random: u64 = if matches!(which, Which::C03) { 0 } else { ctx.pick(30_000, 600_000) };
+    let wf_total = small_asts.len() as u64 + wf_random;
+    let gen_cfg = crate::ast::GenCfg::default();
+    let total = ex_total + boundary_total + soup_total + fam_total + fixed_total + wf_total;
     let acc = run_cases(ctx, total, |i, acc| {
         let (src, kind): (String, String) = if i < ex_total {
             let bi = offs.iter().rposition(|o| *o <= i).unwrap();
@@ -914,9 +979,28 @@ pub fn run(ctx: &Ctx, which: Which) -> (Acc, String, bool) {
             }
             acc.nontrivial += 1;
             (corpus::family(f, sz), format!("family:{}x{}", corpus::FAMILIES[f], sz))
-        } else {
+        } else if i < ex_total + boundary_total + soup_total + fam_total + fixed_total {
             acc.nontrivial += 1;
             (FIXED[(i - ex_total - boundary_total - soup_total - fam_total) as usize].to_string(), "fixed".to_string())
+        } else {
+            let j = i - ex_total - boundary_total - soup_total - fam_total - fixed_total;
+            if (j as usize) < small_asts.len() {
+                acc.nontrivial += 1;
+                (small_asts[j as usize].print(), "ast-small".to_string())
+            } else {
+                let mut r = Rng::for_case(seed, i);
+                let depth = 2 + r.below(4);
+                let s = if r.chance(1, 8) {
+                    lookup_program(&mut r)
+                } else {
+                    crate::ast::rand_program(&mut r, depth, &gen_cfg).print()
+                };
+                acc.distinct.insert(fnv_str(&s));
+                if j % 20_011 == 0 {
+                    acc.sample(Json::s(format!("generated program {:?}", s)));
+                }
+                (s, "ast-random".to_string())
+            }
         };
         if ctx.only_case.is_some() {
             println!("case input ({}): {:?}", kind, src);
@@ -930,7 +1014,7 @@ pub fn run(ctx: &Ctx, which: Which) -> (Acc, String, bool) {
         }
     });
     let rule = format!(
-        "corpus: every sequence of token classes (33 classes, DESIGN Appendix B) of length 1..{} with gap fillers none/space/annotation up to length {} (space/none beyond){}, half of them re-spelled with alternative spellings = {} inputs; {}{} random token soups (<= {} tokens, bracket-balanced bias) and raw character soups; {} scaling families x sizes {:?}. distinct_nontrivial counts the enumerated class sequences, boundary programs, families and distinct soups.",
+        "corpus: every sequence of token classes (33 classes, DESIGN Appendix B) of length 1..{} with gap fillers none/space/annotation up to length {} (space/none beyond){}, half of them re-spelled with alternative spellings = {} inputs; {}{} random token soups (<= {} tokens, bracket-balanced bias) and raw character soups; {} scaling families x sizes {:?}; fixed regression inputs; for C04-C07 additionally every core-language AST of <= 3 nodes and random well-formed programs from the C01 generators, printed with minimal parentheses. distinct_nontrivial counts the enumerated class sequences, boundary programs, families and distinct soups.",
         l_full,
         l_gap,
         if blocks.iter().any(|b| b.0 == 5) { " plus length 5 without fillers" } else { "" },
